@@ -49,6 +49,10 @@ COMMON = [
     (f"fld:x{h('f1')}:f64:0000000000000000", 'field("f1", 0.0_f64)'),
     (f"fld:x{h('f1')}:f64:8000000000000000", 'field("f1", -0.0_f64)'),
     (f"fld:x{h('f1')}:f64:7ff8000000000000", 'field("f1", f64::NAN)'),
+    # a target with multi-byte characters: a path that ends inside one of them, the path itself
+    (f"tgt:x{h('app::gro')}", 'target("app::gro")'),
+    (f"tgt:x{h('app::größe')}", 'target("app::größe")'),
+    (f"tgt:x{h('app::gr')}", 'target("app::gr")'),
     # arbitrary predicates in the one-element-array form
     ("lvc:warn", "level([eq(Level::WARN)])"),
     ("lvc:error", "level([eq(Level::ERROR)])"),
@@ -63,7 +67,11 @@ SPAN_ONLY = [
     (f"name:sw:x{h('n')}", 'name(starts_with("n"))'),
     (f"name:eq:x{h('n2')}", 'name(eq("n2"))'),
 ]
+LONG_A = "проверка" * 24            # 192 two-byte characters: the rendered predicate is far longer than 200 bytes
+LONG_B = "x" + LONG_A                 # the same shifted by one byte (whatever offset a cut would choose, one of the two splits a character)
 EVENT_ONLY = [
+    (f"msg:eq:x{h(LONG_A)}", f'message(eq("{LONG_A}"))'),
+    (f"msg:eq:x{h(LONG_B)}", f'message(eq("{LONG_B}"))'),
     (f"msg:eq:x{h('e0')}", 'message(eq("e0"))'),
     (f"msg:sw:x{h('e')}", 'message(starts_with("e"))'),
     (f"msg:eq:x{h('s0')}", 'message(eq("s0"))'),
